@@ -312,7 +312,8 @@ class FouratiK(Kind):
         kw = dict(_dt_kwargs(p, dt))
         if 'gain' in p:
             kw['gain'] = p['gain']
-        kw['magnetic_dip'] = float(dip)
+        if not p.get('ref_default'):
+            kw['magnetic_dip'] = float(dip)
         return kw
 
     def make(self, p, dt, dip):
@@ -487,7 +488,9 @@ class FLAEk(SingleFrame):
         return Z_UP, W.mref_from_dip('-x', dip)
 
     def ctor_kwargs(self, p, dt, dip):
-        kw = {'method': p.get('method', 'symbolic'), 'magnetic_dip': float(dip)}
+        kw = {'method': p.get('method', 'symbolic')}
+        if not p.get('ref_default'):
+            kw['magnetic_dip'] = float(dip)      # else: the class's own default (module-level) reference
         if p.get('weights') is not None:
             kw['weights'] = _arr(p, 'weights')
         return kw
@@ -543,7 +546,7 @@ class QUESTk(SingleFrame):
     name, cls = 'quest', 'QUEST'
 
     def ctor_kwargs(self, p, dt, dip):
-        kw = {'magnetic_dip': float(dip)}
+        kw = {} if p.get('ref_default') else {'magnetic_dip': float(dip)}
         if p.get('weights') is not None:
             kw['weights'] = np.array(p['weights'], dtype=float)
         return kw
@@ -553,7 +556,7 @@ class DavenportK(SingleFrame):
     name, cls = 'davenport', 'Davenport'
 
     def ctor_kwargs(self, p, dt, dip):
-        kw = {'magnetic_dip': float(dip)}
+        kw = {} if p.get('ref_default') else {'magnetic_dip': float(dip)}
         if p.get('weights') is not None:
             kw['weights'] = np.array(p['weights'], dtype=float)
         return kw
@@ -676,6 +679,8 @@ def gen_params(rnd, kind, *, with_q0=True, defaults_prob=0.3):
     elif kind in ('quest', 'davenport'):
         if rnd.random() < 0.5:
             p['weights'] = [rnd.uniform(0.1, 2), rnd.uniform(0.1, 2)]
+    if kind in ('flae', 'quest', 'davenport', 'fourati') and rnd.random() < 0.25:
+        p['ref_default'] = True         # leave the magnetic reference to the class (a module-level constant)
     if with_q0 and k.q0_route == 'q0' and rnd.random() < 0.5:
         p['q0'] = W.rand_unit(rnd, 4)
         if rnd.random() < 0.15:
